@@ -4,6 +4,7 @@ import json, sys
 tag, wt, outdir = sys.argv[1], sys.argv[2], sys.argv[3]
 pids = sys.argv[4].split(",")
 n = sys.argv[5] if len(sys.argv) > 5 else "6"
+focus = sys.argv[6] if len(sys.argv) > 6 else ""
 props = [json.loads(l) for l in open('/verif/properties.jsonl')]
 props = [p for p in props if p['id'] in pids]
 txt = "\n".join(f"  id: {p['id']}\n  title: {p['title']}\n  statement: {p['statement']}\n  code anchors: {json.dumps(p['anchors']['files'])}\n" for p in props)
@@ -21,6 +22,7 @@ YOUR TASK: produce {n} INDEPENDENT patches (each applies alone to the clean tree
   (b) compiles, and the whole pinned test suite still passes,
   (c) is the kind of thing a maintainer really does: rename locals, reorder independent statements, hoist or sink a computation, replace a macro use by its equivalent expansion or an equivalent helper call, change a loop form (for/while/do, index vs pointer), split a function into a static helper, merge two branches with identical bodies, add an early return for a trivial case that computes the same result, replace `if/else` by `switch` or a conditional expression, introduce a temporary variable, reload a pointer one more time than needed, allocate scratch space a little differently but correctly (e.g. one combined TMP allocation instead of two, freed on every exit), add a correct assertion, reword a condition into an equivalent one (`a >= b` for `!(a < b)`), move a correct reset/initialisation to an equivalent place, etc.
   (d) is non-trivial enough to change the code structure that a static analyser sees (not just comments/whitespace), 5 to 60 changed lines.
+{focus}
 Make the {n} patches differ in kind and in location; spread them over the different properties listed.  Prefer the code that does the delicate work (aliasing/overlap handling, reallocation and pointer reloads, temporary allocation and release, stream error handling, parsing loops, table lookups, dispatch on thresholds, global state, template eval functions in mpirxx.h).
 
 For each patch k = 1..{n} deliver, in {outdir}/{tag}-k/ :
